@@ -174,6 +174,8 @@ def classify(e: ast.expr, fn: ast.AST | None, rel: str, fname: str, depth: int =
     if isinstance(e, ast.Constant) and isinstance(e.value, str):
         lvl, parts = split_mod(e.value)
         return f"(Lit {lvl} {cparts(parts)})"
+    if isinstance(e, (ast.Attribute, ast.Name)) and _is_core_expr(e):
+        return "(CorePrefixed [])"          # the core package itself: add_import(context.core_package_name, name)
     if isinstance(e, ast.JoinedStr) and e.values:
         first = e.values[0]
         if isinstance(first, ast.FormattedValue):
